@@ -192,6 +192,8 @@ def run_case(ctx, i, rng):
                     ctx.count("fenced:bus-name-starting-with-backslash")
                     w = 1
                 cables.append(d.create_cable(nm, wires=w))
+                if w > 1 and len(nm) > 240 and r.random() < 0.6:
+                    cables[-1].lower_index = r.choice([8, 9, 98, 99, 998])     # (the top index has more digits than the width)
             if i % 7 == 5 and r.random() < 0.6:
                 # bus names that contain the query wildcards, one a proper prefix of the other, the longer one first
                 ch_ = r.choice("*?")
